@@ -4,7 +4,7 @@ ENGINES = [
      "kind_free_text": "seeded EVM/state simulation through the real core.ApplyTransaction: grammar-built contract DAGs, every frame 'crashed' by gas cut at each recorded interpreter step / REVERT / INVALID, world digest vs deep-copy model; block batch on a drawn storage engine"},
     {"name": "S4-poolsim", "path": "/verif/sim/poolsim", "serves_properties": ["C19"],
      "kind_free_text": "controlled-scheduler simulation of the real TxPool: tx_pool.go is AST-rewritten at build time (tools/rewrite) so that every lock, channel op, select, go statement, ticker, clock read and pool-map range is a scheduler decision drawn from the tape; real goroutines, one runnable at a time, inside a synctest bubble; optional -race build"},
-    {"name": "S5-chainsim", "path": "/verif/sim/chainsim", "serves_properties": ["C01", "C04", "C06", "C07", "C08", "C09", "C10", "C11", "C13", "C16"],
+    {"name": "S5-chainsim", "path": "/verif/sim/chainsim", "serves_properties": ["C01", "C04", "C06", "C07", "C08", "C09", "C10", "C11", "C13", "C16", "C20"],
      "kind_free_text": "whole-node deterministic simulation: three real core.Core (prime/region/zone) in one synctest bubble; seeded scheduler owns mining, head selection (forks/reorgs), delivery, storage (SimDisk) and the worker refresh; rapid tape = replay"},
     {"name": "S2-triesim", "path": "/verif/sim/triesim", "serves_properties": ["C18"],
      "kind_free_text": "seeded trie histories with restart / crash-at-write-prefix / proof-corruption faults against a map model with per-root snapshots"},
@@ -119,5 +119,11 @@ META = {
         "technique": "deterministic whole-node simulation with miner lockup modes, owner-contract deployment and claims; reference ledger of lockups and unlock heights checked after every block",
         "text": "Exploration: seeded histories in which rewards are paid plainly (Quai and Qi, every lockup byte) or into contract-held lockups, accumulate within and across blocks and epochs, and are claimed early, late, twice, for open epochs and by non-owners, with forks and reorgs; a model ledger fed only by executed coinbase ETXs must equal the stored lockups, payouts and unlock heights.",
         "note": "Reward amounts themselves are not re-derived (taken from the honest block). Workshares arise only as uncles of harness-made forks.",
+    },
+    "C20": {
+        "engine": "S5-chainsim", "design_ref": "DESIGN.md section 4 C20",
+        "technique": "deterministic whole-node simulation with prime in the loop; per-conversion state machine checked over the recorded history (emitted -> repriced|refunded -> credited after the lock period)",
+        "text": "Exploration: seeded mixes of both conversion directions inside one prime block, tight and loose slippage bounds, bursts, forks and reorgs, both sides of the conversion-discount fork; every conversion must have exactly one outcome with the stated amounts, heights and bounds.",
+        "note": "One open known finding (historic side of ConversionSlipChangeBlock over-credits). Exchange-rate trajectories are frozen in these runs.",
     },
 }
